@@ -1,4 +1,4 @@
-CONSTANTS MaxN = 5 MaxN1 = 3 MaxN2 = 4
+CONSTANTS MaxN = 5 MaxN1 = 3 MaxN2 = 4 MaxNS = 4
 INIT Init
 NEXT Next
 INVARIANT Emitted
